@@ -700,6 +700,20 @@ class C04(Oracle):
                         {'callback': fc[0], 'site': fc[1], 'fired_for_slot': fc[2],
                          'registered_on_slot': fc[3]}, culprit)
             return
+        bw = st.extra.get('big_write')
+        if bw is not None and st.outcome == 'ok':
+            for site, n_ in bw['expected'].items():
+                if bw['observed'].get(site, 0) != n_:
+                    w.violation('C04', 'callback-' + site, st,
+                                {'site': site, 'expected': n_, 'observed': bw['observed'].get(site, 0),
+                                 'what': 'one write of %d elements' % bw['n']}, culprit)
+                    return
+            for f_, site in (('overflow', 'on_status_overflow'), ('underflow', 'on_status_underflow'),
+                             ('inaccuracy', 'on_status_inaccuracy')):
+                if bw['flags'][f_] != bool(bw['expected'][site]):
+                    w.violation('C04', 'flag-' + f_, st, {'flag': f_, 'after': bw['flags'][f_],
+                                                         'what': 'one write of %d elements' % bw['n']}, culprit)
+                    return
         rc = st.extra.get('retired_cb')
         if rc is not None:
             w.violation('C04', 'callback-unregistered', st,
